@@ -198,7 +198,7 @@ pub fn build_variant_groups<IntT: for<'a> UInt<'a>>(
                                         sequence.push(IntT::get_last_nucl(*next));
                                     }
                                     if start_kmers.contains(next)
-                                        && i <= (vec_visited.len() - data_info.k_graph)
+                                        && i + data_info.k_graph <= vec_visited.len()
                                     {
                                         vec_snps.push(i + data_info.k_graph);
                                     } else if end_kmers.contains(next) {
